@@ -30,6 +30,7 @@ import (
 	"encoding/hex"
 	"fmt"
 	"math/big"
+	"os"
 	"sort"
 	"strings"
 	"testing"
@@ -189,6 +190,16 @@ func newAppWorld(t *testing.T, sc *appScript) *appWorld {
 // bind (re)creates everything that holds a keeper: msg servers, proposal handlers, app modules.
 func (w *appWorld) bind() {
 	f := w.f
+	// app.go: the metrix keeper listens to "consensus message attested" of the consensus keeper (pruning punishes a
+	// relayer that did not deliver) and of the evm keeper (attestation of a relayed message) — the relay HISTORY, from
+	// which metrix recomputes the relay metrics every 10th block.  The fixture does not wire this; done here BEFORE
+	// anything copies the keepers (msg servers, app modules).  The evm keeper that attests is the one in the registry.
+	f.ConsensusKeeper.AddMessageConsensusAttestedListener(&f.MetrixKeeper)
+	for _, r := range f.ConsensusKeeper.VerifC07Registered() {
+		if ek, ok := r.(*evmkeeper.Keeper); ok {
+			ek.AddMessageConsensusAttestedListener(&f.MetrixKeeper)
+		}
+	}
 	w.palomaMS = palomakeeper.NewMsgServerImpl(f.PalomaKeeper)
 	w.valsetMS = valsetkeeper.NewMsgServerImpl(f.ValsetKeeper)
 	w.treasuryMS = treasurykeeper.NewMsgServerImpl(f.TreasuryKeeper)
@@ -725,7 +736,9 @@ const blockRepeats = 3
 
 // runBlock executes one block and reports.
 func (w *appWorld) runBlock(i int, b appBlock, extra, restart bool) blockOut {
-	if restart && b.Restart {
+	// C08_RESTART=1: restarted at the marked block boundaries; =all: at EVERY boundary (between any write and whatever
+	// later block consumes it — e.g. a relay-history write and metrix's recompute at the next height divisible by 10)
+	if (restart && b.Restart) || (os.Getenv("C08_RESTART") == "all" && i > 0 && !b.Phantom) {
 		w.restart()
 	}
 	out := blockOut{I: i, Height: b.Height}
